@@ -405,7 +405,7 @@ def gen_surface_cases(ctx, n):
     return out
 
 
-def gen_simfd_cases(ctx, laws):
+def gen_simfd_cases(ctx, laws, schemes=("newmark", "hht", "midpoint", "hht_newmark")):
     """short sequences of the public setters (scheme / stress option, both orders, scheme or step size
     changed afterwards, option re-selected) followed by the finite-difference check of the assembled
     Newton matrix of Construct_local_matrix_system with respect to u_{n+1}."""
@@ -413,7 +413,7 @@ def gen_simfd_cases(ctx, laws):
     quick = ctx.tier == "quick"
 
     def algo(name=None):
-        name = name or rng.choice(["newmark", "hht", "midpoint", "hht_newmark"])
+        name = name or rng.choice(list(schemes))
         alpha = round(rng.uniform(0.05, 0.4), 2) if name == "hht" else round(rng.uniform(0.05, 0.33), 2)
         return ["algo", name, rng.choice([0.02, 0.05, 0.1]), alpha]
 
@@ -430,6 +430,22 @@ def gen_simfd_cases(ctx, laws):
               dict(dim=3, n=[2, 1, 1], L=[2.0, 1.0, 1.0], elemType="HEXA8")]
     reps = 1 if quick else 3
     cid = 0
+    # scheme sweep: EVERY scheme the simulation accepts, with every optional physics on (Kelvin-Voigt viscosity, density,
+    # active fibre stress), alpha > 0 where the scheme has one; 2-D (quick) and 3-D (thorough)
+    for rep in range(reps):
+        for si, sname in enumerate(schemes):
+            for kind in (("pointwise",) if quick else ("pointwise", "quadrature")):
+                if kind == "gonzalez" and sname != "midpoint":
+                    continue
+                law = laws[(si + rep) % len(laws)]
+                m = meshes[(si + rep) % (2 if quick else 3)]
+                a = algo(sname)
+                a[3] = round(rng.uniform(0.1, 0.3), 2)
+                cases.append(dict(m, id="w%d" % cid, law=law, params=gen_params(rng, law), rho=round(rng.uniform(0.5, 2.0), 2),
+                                  rand=[rng.gauss(0, 1) for _ in range(240)], amp=0.03, h=1e-6, elems=[rng.randrange(0, 8) for _ in range(2)],
+                                  cols=[rng.randrange(0, 24) for _ in range(4)], ops=[a, stress(kind)], pattern="scheme-sweep:" + sname, kind=kind,
+                                  eta=round(rng.uniform(0.2, 0.8), 2), tau=round(rng.uniform(0.2, 1.0), 2), T1=[1.0, 0.3, 0.0], T2=[-0.3, 1.0, 0.0]))
+                cid += 1
     for rep in range(reps):
         for kind in ("pointwise", "gonzalez", "quadrature", "adaptive"):
             for pattern in ("scheme-then-stress", "stress-then-scheme", "scheme-changed-after-stress", "step-size-changed-after-stress", "stress-reselected"):
@@ -716,6 +732,30 @@ def search_cc_defects(ctx):
     return found
 
 
+def search_newton_coef_defects(ctx, NC, laws):
+    """exact search on the translated time-scheme tables; each hit is confirmed on a real simulation (assembled Newton
+    matrix vs central differences of the assembled residual with every physics switched on)."""
+    found = []
+    rng = ctx.rng
+    for algo, nm, slope, cv in H.newton_coef_defects(NC):
+        what0 = ("time scheme %s: d(%s)/d(u_{n+1}) = %s but %s = %s (dt=1/20, beta=3/10, gamma=3/5, alpha=1/5): the Newton matrix coefK K + coefC C + coefM M "
+                 "is not the derivative of the residual" % (algo, nm.split("/")[0], slope, nm.split("/")[1], cv))
+        law = laws[0]
+        c = dict(dim=2, n=[2, 1, 1], L=[2.0, 1.0, 1.0], elemType="QUAD4", id="nc_" + algo, law=law, params=gen_params(rng, law), rho=1.3,
+                 rand=[rng.gauss(0, 1) for _ in range(240)], amp=0.03, h=1e-6, elems=[0, 1], cols=[0, 3, 5, 6],
+                 ops=[["algo", algo, 0.05, 0.2], ["stress", "pointwise", 3, None, True]], pattern="scheme-sweep:" + algo, kind="pointwise",
+                 eta=0.5, tau=0.0, T1=[1.0, 0.3, 0.0], T2=[-0.3, 1.0, 0.0])
+        snippet = REPLAY_CASE % dict(case=json.dumps(c), fn="run_simfd", key="sim:A=-dF/du_np1", tol=FD_TOL)
+        path = os.path.join(ctx.build, "cand_newton_%s.py" % algo)
+        open(path, "w").write(snippet)
+        rc, out, err = ctx.impl_python(path, timeout=300)
+        if rc == 1:
+            found.append(("newton-coef:%s:%s" % (algo, nm.split("/")[1]), what0 + "; confirmed on a NeoHookean-type simulation with Kelvin-Voigt viscosity", {"replay_py": snippet, "scheme": algo, "slope": str(slope), "coef": str(cv)}))
+        else:
+            found.append(("newton-coef:%s:%s" % (algo, nm.split("/")[1]), what0, {"scheme": algo, "slope": str(slope), "coef": str(cv)}))
+    return found
+
+
 def search_inv_defects(M):
     found = []
     for key, rec in M["state"]["inv"].items():
@@ -791,6 +831,17 @@ def run(ctx):
         ctx.obligation("translate:build-de", False, str(ex))
         ctx.violation("translate:build-de", "HyperElasticState.__Build_De is outside the translated grammar: %s" % ex,
                       {"construct": str(ex), "theorems": "De3_is_sym_GT_grad, element_midpoint_strain_increment"}, found_input=False)
+    NC, schemes = None, ["newmark", "hht", "midpoint", "hht_newmark"]
+    try:
+        NC, hyp = H.read_newton_coefs(ctx.repo)
+        schemes = list(NC)          # every hyperbolic scheme a nonlinear simulation accepts, read from AlgoType
+        open(os.path.join(ctx.build, "Gen_NewtonCoefs.v"), "w").write(H.emit_newton_coefs(NC))
+        ctx.obligation("translate:newton-coefs", True, "schemes %s (AlgoType.Get_Hyperbolic_Types = %s)" % (schemes, hyp))
+    except (TranslateError, SyntaxError, OSError, KeyError, IndexError, AttributeError) as ex:
+        ctx.obligation("translate:newton-coefs", False, str(ex))
+        ctx.violation("translate:newton-coefs", "time-scheme evaluation / coefficient tables are outside the translated grammar: %s" % ex,
+                      {"construct": str(ex)}, found_input=False)
+    ctx.cov["time_schemes"] = schemes
     cc_files = []
     try:
         cct = H.emit_cc(ctx.repo, ctx.tier)
@@ -822,20 +873,23 @@ def run(ctx):
     fcases = gen_fd_cases(ctx, laws, 6 if quick else 24)
     pcases = gen_surface_cases(ctx, 3 if quick else 9)
     dcases = gen_drift_cases(ctx)
-    tcases = gen_simfd_cases(ctx, laws)
+    tcases = gen_simfd_cases(ctx, laws, schemes)
     qcases = gen_quad_cases(ctx, laws)
     req = {"states": scases, "fd": fcases, "surface": pcases, "drift": dcases, "simfd": tcases, "quad": qcases}
     impl_pool = ThreadPoolExecutor(max_workers=1)
     impl_future = impl_pool.submit(ctx.impl_python, os.path.join(common.VERIF, "corr", "C18_impl.py"), (), 1500, json.dumps(req))
     # ---- 2. proofs --------------------------------------------------------------------
-    ctx.copy_props("C18/C18_tac.v", "C18/C18_InvDefs.v", "C18/C18_invariants.v", "C18/C18_pdderive.v", "C18/C18_kinematics.v",
-                   "C18/C18_gonzalez.v", "C18/C18_energy.v", "C18/C18_gradtac.v", "C18/C18_element.v")
-    r0 = ctx.coq(["C18_tac.v", "Gen_HyperLaws.v", "Gen_HyperComp.v", "C18_gradtac.v"], timeout=300)
-    chains = [["C18_InvDefs.v", "Gen_HyperInv.v", "C18_invariants.v", "C18_pdderive.v"]]
+    # C18_tac, C18_kinematics, C18_energy, C18_InvDefs, C18_pdderive, C18_gradtac are static (independent of the repo):
+    # they live in coq/model and are built once by ensure_static (logical path EFModel)
+    ctx.copy_props("C18/C18_invariants.v", "C18/C18_gonzalez.v", "C18/C18_element.v")
+    r0 = ctx.coq(["Gen_HyperLaws.v", "Gen_HyperComp.v"], timeout=300)
+    chains = [["Gen_HyperInv.v", "C18_invariants.v"]]
     if energy_ok:
-        chains.append(["Gen_Gonzalez.v", "C18_gonzalez.v", "C18_energy.v"])
+        chains.append(["Gen_Gonzalez.v", "C18_gonzalez.v"])
+    if NC is not None and r0.ok:
+        chains.append(["Gen_NewtonCoefs.v"])
     if r0.ok:
-        chains += [["Gen_Law_%s.v" % n] for n in laws] + [["C18_kinematics.v", "Gen_HyperRef.v"] + (["Gen_De.v", "C18_element.v"] if de_ok else [])]
+        chains += [["Gen_Law_%s.v" % n] for n in laws] + [["Gen_HyperRef.v"] + (["Gen_De.v", "C18_element.v"] if de_ok else [])]
         chains += [["Gen_HyperGrad_%s.v" % n] for n in iso] if ctx.tier == "thorough" else [["Gen_HyperGrad_%s.v" % n for n in iso]]
     rcc = ctx.coq(["Gen_CC_defs.v"], timeout=300, count=False) if cc_files else None
     if rcc is not None and rcc.ok:
@@ -858,12 +912,15 @@ def run(ctx):
         found = search_inv_defects(M) + search_law_defects(ctx, M, model)
         if any(str(f).startswith("Gen_CC") for f in failed):
             found += search_cc_defects(ctx)
+        if "Gen_NewtonCoefs.v" in failed and NC is not None:
+            found += search_newton_coef_defects(ctx, NC, laws)
         for key, what, rep in found:
-            ctx.violation(key, what, rep, True)
-        explained = {"Gen_CC": any(k.startswith("clenshaw") for k, _, _ in found),
-                     "other": any(not k.startswith("clenshaw") for k, _, _ in found)}
+            ctx.violation(key, what, rep, "replay_py" in rep)
+        cls = lambda f: "Gen_CC" if str(f).startswith("Gen_CC") else "newton" if str(f) == "Gen_NewtonCoefs.v" else "other"
+        kcls = lambda k: "Gen_CC" if k.startswith("clenshaw") else "newton" if k.startswith("newton-coef") else "other"
+        explained = set(kcls(k) for k, _, _ in found)
         if True:
-            for f in [f for f in failed if not explained["Gen_CC" if str(f).startswith("Gen_CC") else "other"]]:
+            for f in [f for f in failed if cls(f) not in explained]:
                 bad = [r for r in allres if r.failed_file == f][0]
                 ctx.violation("proof-broken:" + str(f), "theorem file %s no longer checks and no failing state was found" % f,
                               {"obligation": f, "log": bad.log[-3000:]}, found_input=False)
